@@ -568,6 +568,11 @@ def gen_model_facts(rng, sig, th):
         if len(labels[ty]) >= 2:
             a, b = rng.sample(labels[ty], 2)
             facts.append(["eq", ty, a, b])
+    if rng.random() < 0.3 and nobj >= 3:
+        # two models identified by the caller (histories whose merged diagram is cyclic are skipped
+        # by the check): rows one of them inherited must count for the other as well
+        a, b = rng.sample(labels[MODEL], 2)
+        facts.append(["eq", MODEL, a, b])
     return create, morph, facts
 
 
